@@ -492,6 +492,32 @@ func runSched(col *Collector, focus, tier string, seed int64) {
 			ntight++
 		}
 	}
+	// stages built by the configuration loader whose NAMES are a rotation of the names of the tasks they run (stage
+	// "1" runs task "0", stage "2" runs task "1", ...): a name in depends_on is the name of a stage, wherever that
+	// stage is declared, and never the name of the task another stage runs. A generator of its own: the plans above
+	// stay what they were.
+	rngRot := rand.New(rand.NewSource(seed*7919 + 13))
+	addRot := func(n int, deps [][]int, kinds []byte, batch float64) {
+		c := &schedCfg{n: n, deps: deps, order: rngRot.Perm(n), viaConfig: true}
+		for i := 0; i < n; i++ {
+			c.names = append(c.names, strconv.Itoa((i+1)%n))
+		}
+		applyKinds(c, kinds)
+		plans = append(plans, &schedPlan{cfg: c, rng: rand.New(rand.NewSource(rngRot.Int63())), batchProb: batch, cancelAt: -1, condErr: -1})
+		tags = append(tags, "stage-names-rotate-task-names")
+	}
+	for n := 2; n <= 4; n++ {
+		for _, deps := range dagMasks(n) {
+			ks := make([]byte, n)
+			for i := range ks {
+				ks[i] = 's'
+			}
+			addRot(n, deps, ks, 0)
+			ks2 := append([]byte(nil), ks...)
+			ks2[rngRot.Intn(n)] = []byte{'f', 'a', 'c'}[rngRot.Intn(3)]
+			addRot(n, deps, ks2, 0.5)
+		}
+	}
 	if focus == "C02" || focus == "C03" {
 		for k := 0; k < 6; k++ {
 			sharedNestedCase(col, focus, k%2 == 0)
@@ -505,8 +531,8 @@ func runSched(col *Collector, focus, tier string, seed int64) {
 			sharedTaskHistoryCase(col, v)
 		}
 	}
-	if focus == "C02" {
-		c02RealConfigCases(col)
+	if focus == "C02" || focus == "C03" {
+		c02RealConfigCases(col, focus)
 	}
 	if focus == "C03" {
 		reps := 400
